@@ -934,6 +934,10 @@ class SgzReader(object):
         -------
         header_array : numpy.ndarray of int32, shape (tracecount)
         """
+        value = self.segy_traceheader_template[tracefield]
+        if not isinstance(value, FileOffset):
+            # Invariant header words are not stored as arrays: every trace has the template's value
+            return np.full(self.header_entry_length_bytes // 4, value, dtype=np.int32)
         self._set_variant_header_padding(True)
         self.read_variant_headers(include_padding=True, tracefields=[segyio.tracefield.TraceField(tracefield)])
         return self.variant_headers[tracefield]
